@@ -249,8 +249,8 @@ func constBool(pk *packages.Package, e ast.Expr, und *[]string, p *load.Prog) bo
 // Emitted is the set of events a callback can return as result #0.
 type Emitted struct {
 	Consts  map[string][]ssa.Instruction // constant event -> the instructions that produce it (Store or Return)
-	InEvent bool                          // may return the inEvent parameter
-	Empty   bool                          // may return ""
+	InEvent bool                         // may return the inEvent parameter
+	Empty   bool                         // may return ""
 	Unknown []string
 }
 
